@@ -558,9 +558,11 @@ CLAIMED.update({
                  "left: data is charged and the data callback triggered and no event callback runs; end of stream and hard errors disable the direction FIRST and then run exactly one event callback "
                  "with READING|EOF resp. ERROR (WRITING for the writer); a retriable error reports nothing; buffers are unfrozen exactly around the transfer. P - be_pair_transfer for reader "
                  "watermark x fill levels x flushing moves bytes only by whole-buffer moves from the writer's output to the reader's input, a flush hands over EVERYTHING the writer wrote (a genuine "
-                 "defect fixed in /repo), something moves whenever the reader has room, both buffers are frozen again on every path; be_pair_flush for mode x direction transfers BEFORE it announces EOF to the partner, once, with the right direction bits. M - inside the socket and pair back ends only "
+                 "defect fixed in /repo), something moves whenever the reader has room, both buffers are frozen again on every path; be_pair_flush for mode x direction transfers BEFORE it announces EOF to the partner, once, with the right direction bits. F - be_filter_read_nolock_ evaluated over chunks pending x read callback drains or not x got_eof never returns with data left in "
+                 "the underlying input unless the filter input is full and the inbuf callback armed; be_filter_eventcb forwards each event exactly once and unchanged, and pushes pending input "
+                 "through the filter in FINISHED mode before it announces EOF or a read error (two genuine defects fixed in /repo). M - inside the socket, pair and filter back ends only "
                  "the transport functions change a bufferevent's input/output buffers. Declined: equality of the delivered byte stream over histories of writes, toggles, flushes, schedules and "
-                 "faults (runtime values and orders), the filter and TLS state machines.",
+                 "faults (runtime values and orders), what user-supplied filter callbacks do, the TLS state machines.",
          "note": STD_NOTE + ORDER_NOTE,
          "technique": "static analysis: decision tables by evaluation of the extracted transport callbacks over the finite domain of transfer results (K6), who-may-call over buffer-mutating calls (K2)"},
 })
